@@ -42,11 +42,11 @@ pub open spec fn pairs_map(s: Seq<(String, String)>) -> Map<Seq<char>, Seq<char>
     decreases s.len()
 { if s.len() == 0 { Map::empty() } else { pairs_map(s.drop_last()).insert(s.last().0@, s.last().1@) } }
 pub open spec fn pairs_distinct(s: Seq<(String, String)>) -> bool { forall|i: int, j: int| 0 <= i < j < s.len() ==> s[i].0@ != s[j].0@ }
-impl VxIterRef for MetaMap {
+impl<'a> VxIterRef<'a> for MetaMap {
     type Item = (String, String);
     open spec fn vx_ref_items_ok(&self, items: Seq<(String, String)>) -> bool { pairs_map(items) == self.m@ && pairs_distinct(items) }
     #[verifier::external_body]
-    fn vx_iter(&self) -> (r: VxIter<(String, String)>) { unimplemented!() }
+    fn vx_iter(&'a self) -> (r: VxIter<(String, String)>) { unimplemented!() }
 }
 impl VxCollect for MetaMap {
     type Item = (String, String);
@@ -106,6 +106,68 @@ pub proof fn lemma_entries_pairs(e: Seq<MetaEntry>, p: Seq<(String, String)>)
         lemma_entries_pairs(e.drop_last(), p.drop_last());
     }
 }
+// ---- tonic / prost side of the two service calls (strategy_adapter.rs, discovery_adapter.rs) ------------------------
+pub mod tonic {
+    use vstd::prelude::*;
+    pub struct Request<T> { pub inner: T }
+    impl<T> Request<T> { pub fn new(t: T) -> (r: Self) ensures r.inner == t { Request { inner: t } } }
+    pub struct Response<T> { pub inner: T }
+    impl<T> Response<T> { pub fn into_inner(self) -> (r: T) ensures r == self.inner { self.inner } }
+    pub struct Status {}
+}
+pub struct Uuid { pub bits: u128 }
+pub uninterp spec fn uuid_text(u: Uuid) -> Seq<char>;
+impl Uuid { #[verifier::external_body] pub fn to_string(&self) -> (r: String) ensures r@ == uuid_text(*self) { unimplemented!() } }
+pub type Protocol = i32;
+pub struct SelectRequest { pub client_address: Option<Address>, pub server_address: Option<Address>, pub protocol: u64, pub username: String, pub user_id: String, pub targets: Vec<Target> }
+pub struct SelectResponse { pub target: Option<Target> }
+pub struct TargetRequest {}
+pub struct TargetsResponse { pub targets: Vec<Target> }
+/// what a service sees of a message: string contents, and metadata as the map the entries denote
+pub struct AddrView { pub host: Seq<char>, pub port: u32 }
+pub struct TargetView { pub id: Seq<char>, pub addr: Option<AddrView>, pub meta: Map<Seq<char>, Seq<char>> }
+pub struct SelectReqView { pub client: Option<AddrView>, pub server: Option<AddrView>, pub protocol: u64, pub username: Seq<char>, pub user_id: Seq<char>, pub targets: Seq<TargetView> }
+pub open spec fn addr_view(a: Option<Address>) -> Option<AddrView> { match a { Some(x) => Some(AddrView { host: x.hostname@, port: x.port }), None => None } }
+pub open spec fn wire_target_view(t: Target) -> TargetView { TargetView { id: t.identifier@, addr: addr_view(t.address), meta: entries_map(t.meta@) } }
+pub open spec fn router_target_view(t: passage_adapters::Target) -> TargetView {
+    TargetView { id: t.identifier@, addr: Some(AddrView { host: ip_text(t.address.ipaddr), port: t.address.portno as u32 }), meta: t.meta.m@ }
+}
+pub open spec fn select_request_view(r: SelectRequest) -> SelectReqView {
+    SelectReqView { client: addr_view(r.client_address), server: addr_view(r.server_address), protocol: r.protocol, username: r.username@, user_id: r.user_id@,
+        targets: Seq::new(r.targets@.len(), |i: int| wire_target_view(r.targets@[i])) }
+}
+/// C19: the request the strategy service must receive for these arguments of `select`
+pub open spec fn expected_select_request(client: SocketAddr, host: Seq<char>, port: u16, protocol: i32, name: Seq<char>, id: Uuid, targets: Seq<passage_adapters::Target>) -> SelectReqView {
+    SelectReqView { client: Some(AddrView { host: ip_text(client.ipaddr), port: client.portno as u32 }), server: Some(AddrView { host, port: port as u32 }), protocol: protocol as u64,
+        username: name, user_id: uuid_text(id), targets: Seq::new(targets.len(), |i: int| router_target_view(targets[i])) }
+}
+/// the two remote services: deterministic functions of what they are sent (assumed)
+pub uninterp spec fn strategy_service(req: SelectReqView) -> Result<SelectResponse, ()>;
+pub uninterp spec fn discovery_service() -> Result<TargetsResponse, ()>;
+pub struct StrategyClient {}
+impl Clone for StrategyClient { #[verifier::external_body] fn clone(&self) -> StrategyClient { unimplemented!() } }
+impl StrategyClient {
+    #[verifier::external_body]
+    pub fn select_target(&mut self, request: tonic::Request<SelectRequest>) -> (r: Result<tonic::Response<SelectResponse>, tonic::Status>)
+        ensures match strategy_service(select_request_view(request.inner)) { Ok(resp) => r matches Ok(x) && x.inner == resp, Err(_) => r is Err }
+    { unimplemented!() }
+}
+pub struct DiscoveryClient {}
+impl Clone for DiscoveryClient { #[verifier::external_body] fn clone(&self) -> DiscoveryClient { unimplemented!() } }
+impl DiscoveryClient {
+    #[verifier::external_body]
+    pub fn get_targets(&mut self, request: tonic::Request<TargetRequest>) -> (r: Result<tonic::Response<TargetsResponse>, tonic::Status>)
+        ensures match discovery_service() { Ok(resp) => r matches Ok(x) && x.inner == resp, Err(_) => r is Err }
+    { unimplemented!() }
+}
+pub assume_specification<T, E> [Option::<Result<T, E>>::transpose] (o: Option<Result<T, E>>) -> (r: Result<Option<T>, E>)
+    ensures r == (match o { Some(Ok(x)) => Ok::<Option<T>, E>(Some(x)), Some(Err(e)) => Err::<Option<T>, E>(e), None => Ok::<Option<T>, E>(None) });
+/// what `TryFrom<proto::Target> for Target` makes of a wire target (its contract, as a predicate)
+pub open spec fn wire_ok(w: Target) -> bool { w.address is Some && parse_ip(w.address->0.hostname@) is Some && w.address->0.port <= 65535 }
+pub open spec fn same_target(t: passage_adapters::Target, w: Target) -> bool {
+    t.identifier@ == w.identifier@ && t.address == (SocketAddr { ipaddr: parse_ip(w.address->0.hostname@)->0, portno: w.address->0.port as u16 }) && t.meta.m@ == entries_map(w.meta@)
+}
+
 /// C19: what a target looks like on the wire and what must come back
 pub open spec fn wire_of(t: passage_adapters::Target) -> (Seq<char>, Seq<char>, u32) { (t.identifier@, ip_text(t.address.ipaddr), t.address.portno as u32) }
 
